@@ -147,6 +147,8 @@ func init() {
 				{"float64/2-mergers", b2, c09Scenario("float64", [][]c09Write{{m(R0, F(0x3fd0000000000000))}, {m(R0, F(0x7ff0000000000000)), m(R1, F(0x3ff0000000000000))}}, false)},
 				{"string/order-sensitive-concat", b2, c09Scenario("string", [][]c09Write{{m(R0, S("x"))}, {m(R0, S("yy")), m(R1, S("z"))}}, false)},
 				{"record/order-sensitive-merge", b2, c09Scenario("record", [][]c09Write{{m(R0, S("x")), m(R1, S("q"))}, {m(R0, S("y"))}}, false)},
+				{"record/mergers-in-different-blocks", b2, c09Scenario("record", [][]c09Write{{m(R0, S("x"))}, {m(R1, S("y"))}}, false)},
+				{"string/mergers-in-different-blocks", b2, c09Scenario("string", [][]c09Write{{m(R0, S("x"))}, {m(R1, S("yy"))}}, false)},
 				{"int/merger+overwriter+merger", b3, c09Scenario("int", [][]c09Write{{m(R0, N(1))}, {p(R0, N(100))}, {m(R0, N(2))}}, true)},
 				{"int/double-merge-in-one-txn", b2, c09Scenario("int", [][]c09Write{{m(R0, N(1)), m(R0, N(1))}, {m(R0, N(10))}}, false)},
 			})
